@@ -66,9 +66,22 @@ def _p_frame_identity(df):
 PARSERS = {"add1": _p_add1, "strip": _p_strip, "abs": _p_abs, "frame_identity": _p_frame_identity}
 
 
+def parse_cat(dt):
+    """'cat:p,q' / 'cat:p,q:o' -> (categories, ordered) for a parametrised categorical dtype spelling, else None"""
+    if not (isinstance(dt, str) and dt.startswith("cat:")):
+        return None
+    parts = dt.split(":")
+    return [x for x in parts[1].split(",") if x], (len(parts) > 2 and parts[2] == "o")
+
+
 def _dtype_arg(dt):
     if dt == "str":
         return str
+    pc = parse_cat(dt)
+    if pc is not None:
+        import pandas as pd
+
+        return pd.CategoricalDtype(pc[0], ordered=pc[1])
     return dt
 
 
